@@ -256,14 +256,15 @@ func classifyParam(v *types.Var, idx int, nNat *int, nVal *int) (role, name stri
 		return "nat", "nat:" + strings.TrimPrefix(v.Name(), "nat_")
 	}
 	if s, ok := t.(*types.Slice); ok {
-		if b, ok := s.Elem().(*types.Basic); ok && b.Kind() == types.Int && v.Name() == "sizes" {
+		if b, ok := s.Elem().(*types.Basic); ok && b.Kind() == types.Int {
 			return "sizes", "sizes"
 		}
 	}
 	if isBool(t) && (v.Name() == "optimizeEmpty" || v.Name() == "legacyTypeNames") {
 		return "flag", "flag:" + v.Name()
 	}
-	if v.Name() == "block" {
+	if b, ok := t.(*types.Basic); ok && b.Kind() == types.Uint8 {
+		// a by-value byte parameter is the field-mask block handed to a variant/fields reader
 		return "other", "p:block"
 	}
 	*nVal++
